@@ -1,7 +1,7 @@
 CONSTANTS
  Procs = {"p1", "p2", "p3", "p4"}
  Queues = {"q1", "q2"}
- MaxMax = 3
+ MaxMax = 2
  MultiLens = {2}
  Confs <- AllConfs
 INIT Init
